@@ -366,11 +366,27 @@ func Rename(oldpath, newpath string) error {
 	if err := Begin("rename", oldpath+" -> "+rel(newpath)); err != nil {
 		return &os.LinkError{Op: "rename", Old: oldpath, New: newpath, Err: unwrapErrno(err)}
 	}
+	fi, _ := os.Lstat(oldpath)
 	if err := os.Rename(oldpath, newpath); err != nil {
 		return err
 	}
 	Notify(filepath.Dir(oldpath), filepath.Base(oldpath), InMovedFrom)
 	Notify(filepath.Dir(newpath), filepath.Base(newpath), InMovedTo)
+	if fi != nil && fi.IsDir() {
+		// a watch follows the inode: the watched directory keeps its watch under its new name
+		// (the watcher still knows it under the name it was added with) and gets IN_MOVE_SELF
+		oldc, newc := filepath.Clean(oldpath), filepath.Clean(newpath)
+		for _, in := range W.Instances {
+			if in.Closed {
+				continue
+			}
+			if given, ok := in.Watches[oldc]; ok {
+				delete(in.Watches, oldc)
+				in.Watches[newc] = given
+				in.Queue = append(in.Queue, KEvent{WatchPath: given, Mask: InMoveSelf})
+			}
+		}
+	}
 	return nil
 }
 
